@@ -193,8 +193,8 @@ SEEDS = {
               "degree 3, 5 or 6 and an interval end whose p-fold sum divided by p does not round back (e.g. [0.1,0.7], p=6)"),
     "C07-5": ("C07", "NurbsFunc.as_vector of a scalar NURBS reuses the premultiplied coefficient array as plain coefficients",
               "scalar NurbsFunc with non-constant weights, as_vector() and everything built on it"),
-    "C08-5": ("C08", "symmetric BSR assembly mirrors the off-diagonal blocks without transposing them",
-              "vector-valued symmetric form with non-symmetric off-diagonal blocks, symmetric=True, format='bsr'"),
+    "C08-5": ("C08", "MLMatrix._matvec (2/3 levels) returns a per-object output buffer that the next product overwrites",
+              "format='mlb' (vector-valued form, 1D/2D), two products with the same operator while the first result is still held"),
 }
 
 
